@@ -225,6 +225,21 @@ func (s *state) CheckBody(ctx context.Context, hdr textproto.Header, _ buffer.Bu
 	}
 	authName := s.msgMeta.Conn.AuthUser
 
+	fromFields := 0
+	for fields := hdr.FieldsByKey("From"); fields.Next(); {
+		fromFields++
+	}
+	if fromFields > 1 {
+		// Only the first field would be checked, others can be forged.
+		return s.c.errAction.Apply(module.CheckResult{
+			Reason: &exterrors.SMTPError{
+				Code:         550,
+				EnhancedCode: exterrors.EnhancedCode{5, 7, 0},
+				Message:      "Multiple From header fields are not allowed",
+				CheckName:    modName,
+			}})
+	}
+
 	fromHdr := hdr.Get("From")
 	if fromHdr == "" {
 		return s.c.errAction.Apply(module.CheckResult{
